@@ -275,6 +275,8 @@ func propC01(rec *stats.Rec, sc *scratch, auto bool) func(t *rapid.T) {
 				mutated = fmt.Sprintf("makeDir %s", l.Pool[d].Name)
 			}
 		}
+		// always enabled (rapid gives up on a step in which every drawn action skips, e.g. with every directory missing)
+		actions["recheck"] = func(t *rapid.T) { mutated = "recheck" }
 		actions[""] = check
 		t.Repeat(actions)
 	}
